@@ -7,7 +7,9 @@ pub mod c09;
 pub mod c10;
 pub mod c11;
 pub mod c12;
+pub mod c14;
 pub mod c15;
+pub mod c20;
 
 use crate::report::Report;
 
@@ -47,7 +49,9 @@ pub fn run(id: &str, report: &mut Report, replay: Option<&str>) {
         "C10" => c10::run(report, replay_val.as_ref()),
         "C11" => c11::run(report, replay_val.as_ref()),
         "C12" => c12::run(report, replay_val.as_ref()),
+        "C14" => c14::run(report, replay_val.as_ref()),
         "C15" => c15::run(report, replay_val.as_ref()),
+        "C20" => c20::run(report, replay_val.as_ref()),
         _ => {
             eprintln!("unknown property {}", id);
             std::process::exit(2);
